@@ -39,6 +39,9 @@ func init() {
 			"width auto/px/% on table, columns and cells, table-layout auto/fixed, border-spacing with one or two values, border-collapse, paddings/borders, containing widths 20-2000px, 30% of the documents on short pages (tables fragment). " +
 			"One table in six is drawn from the 'every column constrained' family: automatic layout, px table width 100-800, a px width on every column (col, colgroup with span, or a single-column cell), no percentage, including columns without originating cell that are only covered by a colspan; " +
 			"counters fragments_all_constrained / all_constrained_surplus (width to assign provably above the sum of the columns' max-content widths: the surplus can only be placed by the last-resort distribution) / all_constrained_empty_origin / all_constrained_surplus_empty_origin count the fragments of that family that were checked. " +
+			"One table in six is drawn from the 'percentage columns next to length columns' family (mixed.go): automatic layout, px (3 in 4, 100-800) or auto table width, every column sized and none left to absorb free space -- 1..n-1 columns by a percentage (5-50%, sum below 100 in 7 tables of 8), the others by a px width 10-160 -- declared on col, colgroup (span) or a single-column cell, columns without originating cell and colspans included; " +
+			"the cells of a percentage column hold contents that fit in the share the column keeps next to the declared lengths (pct/(100-sum pct) x sum of the declared px widths; below that share the open finding F8b applies). " +
+			"Counters fragments_mixed_constrained (px table width) / fragments_mixed_constrained_auto_width count the checked fragments of that family, mixed_constrained_surplus those whose width to assign provably exceeds what the columns ask for (percentage shares + max-content bounds from the description), so that a surplus had to be placed without any unsized column; _3plus_columns / _empty_origin refine it; mixed_constrained_pct_below_share (observed, no floor) counts fragments in which a percentage column ended below its percentage of the assigned width. " +
 			"A case is non-trivial when at least one laid-out table fragment with at least two cells had every relation of the monitor evaluated; distinct = distinct document text.",
 		N: func(tier string) int {
 			if tier == "thorough" {
@@ -82,13 +85,18 @@ func init() {
 				"all_constrained_surplus":              250 * k,
 				"all_constrained_empty_origin":         300 * k,
 				"all_constrained_surplus_empty_origin": 90 * k,
+				// "percentage columns next to length columns" family (mixed.go)
+				"fragments_mixed_constrained":             300 * k,
+				"mixed_constrained_surplus":               80 * k,
+				"mixed_constrained_surplus_3plus_columns": 30 * k,
+				"mixed_constrained_surplus_empty_origin":  25 * k,
 			}
 		},
 		Assumptions: []string{
 			"the Ahem test font of /repo/resources_test is metric exact (every glyph 1em wide), so the minimum content width of a cell is known to the generator",
 			"slot assignment is compared with an independent model of the HTML table model (first free slot of the row, spans clipped to the row group, rowspan=0 to the end of the group)",
 			"nothing is asserted about which widths the automatic algorithm chooses, only the relations of the property",
-			"generator restrictions of the open findings stay in force: F3, F5, F6 (a column-spanning cell over columns that all carry a width is generated only when its minimum content provably fits in the px widths of the spanned column elements), F8/F8b (every column with a width is generated only with a px or auto table width and no percentage column), F11",
+			"generator restrictions of the open findings stay in force: F3, F5, F6 (a column-spanning cell over columns that all carry a width is generated only when its minimum content provably fits in the px widths of the spanned column elements), F8/F8b/F8c (a table in which every column carries a width is generated only with a px or auto table width, and with percentage columns only when at least one column carries a px width and the cells of the percentage columns fit in pct/(100-sum pct) x sum of the declared px widths), F11",
 		},
 		Batch: 100,
 	})
